@@ -316,6 +316,16 @@ func (p c14) check(sc *Scenario, acc *Acc, minimise bool) *Violation {
 		acc.Evals++
 		acc.Steps += ex.steps
 		hashes[ex.hash] = true
+		acc.Fault("map-order-"+sc.Replicas[ri].Mode, 1)
+		if sc.Replicas[ri].History {
+			acc.Fault("prior-history-in-same-process", 1)
+		}
+		if sc.Replicas[ri].Sched != 0 {
+			acc.Fault("goroutine-schedule-policy", 1)
+		}
+		if sc.Replicas[ri].Clock != canonicalReplica.Clock {
+			acc.Fault("clock-base-and-prng-stream", 1)
+		}
 		if d := firstDiff(base.obs, ex.obs); d >= 0 && viol == nil {
 			viol = &Violation{Prop: "C14", Clause: "replicas that differ only in map iteration order / clock / PRNG stream observe different results",
 				Detail:   fmt.Sprintf("op %d (%s): replica 0 (%s) vs replica %d (%s)", d, sc.Ops[d], sc.Replicas[0].Mode, ri, sc.Replicas[ri].Mode),
